@@ -275,7 +275,16 @@ func valuesOf(s *jShape, r *rng, limit int) []reflect.Value {
 	case "mapstr", "mapint", "maptm":
 		add(zero)
 		add(reflect.MakeMap(t))
-		keys := map[string][]any{"mapstr": {"b", "a", "<k>", "", "10", "9"}, "mapint": {2, 10, -1, 0}, "maptm": {TMK{"x"}, TMK{""}, TMK{"a"}}}[s.K]
+		keys := map[string][]any{"mapstr": {"b", "a", "<k>", "", "10", "9", "B", "é", "a\x00", "ab"}, "mapint": {2, 10, -1, -2, -10, 0, 9, -9, 100, -100},
+			"maptm": {TMK{"x"}, TMK{""}, TMK{"a"}, TMK{"X"}}}[s.K]
+		// one map with every key (the order of the members is the sorted order of the key strings)
+		if len(elems) > 0 {
+			m := reflect.MakeMap(t)
+			for i, k := range keys {
+				m.SetMapIndex(reflect.ValueOf(k), elems[i%len(elems)])
+			}
+			add(m)
+		}
 		for i, e := range elems {
 			m := reflect.MakeMap(t)
 			m.SetMapIndex(reflect.ValueOf(keys[i%len(keys)]), e)
